@@ -38,9 +38,40 @@ def main(argv=None) -> int:
         print(f"MACHINERY property={a.prop}: {e}")
         return 2
     except Exception:
-        traceback.print_exc()
+        text = traceback.format_exc()
+        sys.stderr.write(text)
+        where = raised_in_code_under_test(text)
+        if where:
+            # the library raised where every harness step relies on it to answer (on the unchanged tree it does):
+            # that is an observation about the code, not a failure of the machinery
+            import json
+            d = REPLAYS / a.prop
+            d.mkdir(parents=True, exist_ok=True)
+            p = d / "raised.json"
+            p.write_text(json.dumps({"property": a.prop, "clause": "code-under-test-raised-where-an-answer-is-required",
+                                     "case": {"raised_at": where}, "traceback": text[-6000:]}, indent=1))
+            print(f"VIOLATION property={a.prop} replay={p}  clause=code-under-test-raised-where-an-answer-is-required ({where})")
+            return 1
         print(f"MACHINERY property={a.prop}: unexpected exception in the harness")
         return 2
+
+
+def raised_in_code_under_test(tb_text: str):
+    """Of the frames that belong to the harness or to the library, is the innermost one the library's?
+    (For exceptions coming out of a worker process the remote traceback, which is part of the text, is what counts.)"""
+    import re
+    from .core import REPO
+    frames = re.findall(r'File "([^"]+)", line (\d+), in (\S+)', tb_text)
+    remote = tb_text.find('"""')
+    if remote >= 0:
+        end = tb_text.find('"""', remote + 3)
+        frames = re.findall(r'File "([^"]+)", line (\d+), in (\S+)', tb_text[remote:end if end > 0 else None]) or frames
+    lib = str(REPO) + "/src/decaylanguage/"
+    ours = [(f, ln, fn) for f, ln, fn in frames if f.startswith(lib) or "/harness/" in f]
+    if ours and ours[-1][0].startswith(lib):
+        f, ln, fn = ours[-1]
+        return f"{f[len(str(REPO)) + 1:]}:{ln} in {fn}"
+    return None
 
 
 if __name__ == "__main__":
